@@ -245,6 +245,17 @@ pub fn gen_history(r: &mut Rng, mean_ops: u64, max_ops: u64) -> (Vec<Actor>, Vec
             ops.push(gen_op(r, &sw));
         }
     }
+    // a burst of sibling tags (same X.Y.Z, different suffixes) on whatever commit HEAD is then
+    if r.chance(1, 4) {
+        let at = r.below(ops.len() as u64 + 1) as usize;
+        for (i, name) in names::sibling_tags(r).into_iter().enumerate() {
+            let kind = if r.chance(1, 4) { TagKind::Annot } else { TagKind::Light };
+            ops.insert((at + i).min(ops.len()), Op::Tag { name, kind, target: None, actor: 0, dt: 0 });
+        }
+        if skeleton == "random" {
+            skeleton = "random+siblings".into();
+        }
+    }
     (actors, ops, skeleton)
 }
 
@@ -303,6 +314,10 @@ pub struct Expect {
 
 /// tags on commit `c` that are maximal in family `sem` (true) / `pep` (false)
 fn maximal_in_family(w: &World, c: usize, sem: bool) -> Vec<String> {
+    maximal_in_family_with(w, c, sem, false)
+}
+
+fn maximal_in_family_with(w: &World, c: usize, sem: bool, dev_only_high: bool) -> Vec<String> {
     let names: Vec<&str> = w.tags_on(c).iter().map(|t| t.name.as_str()).collect();
     let mut out = vec![];
     if sem {
@@ -315,7 +330,7 @@ fn maximal_in_family(w: &World, c: usize, sem: bool) -> Vec<String> {
     } else {
         let parsed: Vec<(&str, ver::Pep440)> = names.iter().filter_map(|n| ver::parse_pep440(n).map(|v| (*n, v))).collect();
         for (n, v) in &parsed {
-            if parsed.iter().all(|(_, u)| ver::cmp_pep440(u, v) != Ordering::Greater) {
+            if parsed.iter().all(|(_, u)| ver::cmp_pep440_with(u, v, dev_only_high) != Ordering::Greater) {
                 out.push(n.to_string());
             }
         }
@@ -404,6 +419,28 @@ fn v(clause: &str, field: &str, exp: impl ToString, act: impl ToString, detail: 
 /// --points-at` peels one level only, so zerv does not see such tags).  Every other
 /// violation keeps its clause.
 pub fn judge(w: &World, fmt: &str, sim_now: i64, obs: &Obs, stats: &mut Stats) -> Vec<Violation> {
+    let vs = judge_nested(w, fmt, sim_now, obs, stats);
+    // known finding KF-C02-pep440-dev-order: the reported tag is not maximal under PEP 440, but it
+    // is exactly the maximum under zerv's own (pinned by upstream tests) ranking of `X.devN`
+    // above the pre-releases of X.  Identified only when that single deviation explains the choice.
+    vs.into_iter()
+        .map(|mut x| {
+            if x.field == "maximal" && x.clause.ends_with("base-tag") && fmt != "semver" {
+                if let Some(tag) = w.live_tags().find(|t| t.name == x.actual) {
+                    let quirk_max = maximal_in_family_with(w, tag.target, false, true);
+                    let devonly = ver::parse_pep440(&x.actual).map(|p| p.pre.is_none() && p.post.is_none() && p.dev.is_some()).unwrap_or(false);
+                    if devonly && quirk_max.contains(&x.actual) {
+                        stats.bump("probe.pep440_dev_only_ranked_above_prerelease");
+                        x.clause = format!("pep440-dev-order:{}", x.clause);
+                    }
+                }
+            }
+            x
+        })
+        .collect()
+}
+
+fn judge_nested(w: &World, fmt: &str, sim_now: i64, obs: &Obs, stats: &mut Stats) -> Vec<Violation> {
     let vs = judge_inner(w, fmt, sim_now, obs, stats);
     if vs.is_empty() || !w.live_tags().any(|t| t.kind == TagKind::Nested) {
         return vs;
@@ -662,12 +699,14 @@ pub fn execute(ctx: &Ctx, scv: &serde_json::Value, rd: &RunDir, stats: &mut Stat
             stats.event(format!("op {i} {op:?} => {r}"));
             continue;
         }
+        // observe first: the plumbing used for cross-validation (`git diff`) refreshes the index, which
+        // would hide a stat-dirty-but-content-clean work tree from the program under test
+        let obs = observe(ctx, rd, &w, &sc.fmt, sc.sim_now, sc.cwd_mode, "", stats);
+        stats.bump("observations");
         if validate_every || last {
             w.validate()?;
             stats.bump("model_validated_against_plumbing");
         }
-        let obs = observe(ctx, rd, &w, &sc.fmt, sc.sim_now, sc.cwd_mode, "", stats);
-        stats.bump("observations");
         let mut vs = judge(&w, &sc.fmt, sc.sim_now, &obs, stats);
         let key = w.shape_key(&sc.fmt);
         if w.commits.len() >= 2 && w.live_tags().count() >= 1 {
